@@ -369,6 +369,42 @@ theorem resume_never_silently_wrong_stale_processed_witness :
     verdictFrom staleLocksKeptBuggy cfgS ord1 ord1 saves1Stale 31 = .diff ∧
     verdictFrom staleLocksKeptBuggy cfgS ord1 ord1 saves1Stale 2 = .fail := by decide +kernel
 
+/-! ### `--sqanti_output`, several experiments: witnesses for two seeded changes -/
+
+/-- the toy configuration with `--sqanti_output` -/
+def cfgQ : Cfg := { cfg1 with sqanti := true }
+
+/-- the rows of the per-chromosome SQANTI-like table reach the disk only when their printer dies, after the `_processed`
+    lock (seeded change: the aggregator's own header-only printer is flushed instead of the task's) -/
+def sqantiNotFlushedBuggy : Variant := { fixed with flushSqanti := false }
+
+/-- killed right after the `_processed` lock appeared (event 57 = `create processed 0`): the resumed run skips the
+    chromosome and exits successfully with a truncated SQANTI-like table -/
+theorem resume_never_silently_wrong_sqanti_witness :
+    (cleanEvents sqantiNotFlushedBuggy cfgQ ord1)[56]? = some (.create (.processed 0)) ∧
+    verdict sqantiNotFlushedBuggy cfgQ ord1 ord1 57 = .diff := by decide +kernel
+
+/-- the toy configuration as a second experiment of an invocation whose first experiment has unaligned reads -/
+def cfgB : Cfg := { cfg1 with carried := true }
+
+/-- the alignment counter reset only where reads are collected (seeded change: the reset moved from process_sample into
+    collect_reads, after the early return of a resumed run that finds the stage lock) -/
+def counterNotResetBuggy : Variant := { fixed with resetCounter := false }
+
+/-- killed once the read collection of the later experiment has finished (event 16 = stage lock written): the resumed run
+    skips the collection, adds this experiment's unaligned reads to those of the earlier experiments and exits
+    successfully with a wrong `__not_aligned` line -/
+theorem resume_never_silently_wrong_carried_counter_witness :
+    (cleanEvents counterNotResetBuggy cfgB ord1)[15]? = some (.create .lock) ∧
+    verdict counterNotResetBuggy cfgB ord1 ord1 16 = .diff := by decide +kernel
+
+-- `resume_correct` covers both dimensions: the same kill points on the repaired code
+example : verdict fixed cfgQ ord1 ord1 57 = .equal ∧ verdict fixed cfgB ord1 ord1 16 = .equal :=
+  ⟨resume_correct (cfg := cfgQ) ⟨by decide, by decide, by decide, fun _ => Iff.rfl, fun _ => Iff.rfl⟩ rfl ord1 ord1
+      (by decide) (by decide) 57 (by omega),
+   resume_correct (cfg := cfgB) ⟨by decide, by decide, by decide, fun _ => Iff.rfl, fun _ => Iff.rfl⟩ rfl ord1 ord1
+      (by decide) (by decide) 16 (by omega)⟩
+
 /-! ### non-vacuity -/
 
 /-- three chromosomes whose processing, merge and BAM orders differ; annotation, `file:` read groups, unaligned reads -/
